@@ -4,6 +4,7 @@ import (
 	"bytes"
 	"encoding/json"
 	"fmt"
+	"strings"
 
 	"verifharness/internal/gen"
 	"verifharness/internal/real"
@@ -85,13 +86,30 @@ func rawSub(sub map[string]ref.Val, bad string) map[string]interface{} {
 	return raw
 }
 
+type callerBufferWritten string
+
 func realApply(m *ast.DataMessage, op prodOp) (out *ast.DataMessage, o real.Outcome) {
 	o = real.Try(func() {
 		switch op.Kind {
 		case "wait":
 			out = m.SetWaitBit(op.B)
 		case "session":
-			out = m.SetSessionIDAndSystemBytes(op.Session, op.Sys)
+			// the argument is the front of a larger caller-owned buffer: the call must not write to that buffer, and
+			// what the caller does to it afterwards must not reach the message
+			buf := make([]byte, len(op.Sys)+8)
+			copy(buf, op.Sys)
+			for i := len(op.Sys); i < len(buf); i++ {
+				buf[i] = 0xEE
+			}
+			out = m.SetSessionIDAndSystemBytes(op.Session, buf[:len(op.Sys)])
+			for i := len(op.Sys); i < len(buf); i++ {
+				if buf[i] != 0xEE {
+					panic(callerBufferWritten(fmt.Sprintf("SetSessionIDAndSystemBytes wrote to the caller's buffer beyond the %d-byte argument: %x", len(op.Sys), buf)))
+				}
+			}
+			for i := range buf {
+				buf[i] = 0x77
+			}
 		case "fill":
 			out = m.FillVariables(rawSub(op.Sub, op.Bad))
 		}
@@ -162,6 +180,10 @@ func c18Eval(c *ctx, cs c18Case) {
 		// the receiver is never changed
 		if d := before.Diff(real.Snap(cur)); d != "" {
 			c.Violation("C18/receiver-changed/"+op.Kind, d, cs)
+			return
+		}
+		if strings.HasPrefix(o.Text, "SetSessionIDAndSystemBytes wrote to the caller") {
+			c.Violation("C18/producer-writes-to-the-callers-buffer", o.Text, cs)
 			return
 		}
 		if refused != o.Panicked {
